@@ -1536,3 +1536,34 @@ def inlined_view(p, f, prefix=None, depth=2):
         p.func_of_node[id(node)] = g
         cache[key] = g
     return cache[key]
+
+
+def slice_field_reads(fnode):
+    """a slice object taken apart: variables of which `.start` and `.stop` are read in one function.  A slice has three
+    components; code that handles two of them silently treats `x[::k]` like `x[:]`.
+    -> [(variable text, fields read, first node)]"""
+    by = {}
+    for n in walk_with_lambdas(fnode):
+        if isinstance(n, ast.Attribute) and isinstance(n.ctx, ast.Load) and n.attr in ("start", "stop", "step") and isinstance(n.value, ast.Name):
+            by.setdefault(n.value.id, {}).setdefault(n.attr, n)
+    return [(v, set(fs), min(fs.values(), key=lambda x: x.lineno)) for v, fs in by.items() if {"start", "stop"} <= set(fs)]
+
+
+FRESH_VALUE_CALLS = ("uuid.uuid1", "uuid.uuid4", "uuid4", "uuid1", "random.random", "random.randint", "random.getrandbits", "time.time", "time.monotonic", "time.perf_counter", "itertools.count", "count", "next", "id", "object")
+
+
+def calls_in_defaults(fnode):
+    """default values are evaluated ONCE, when the `def` runs: a default that is meant to be a fresh value per call (a new
+    uuid, a counter tick, a new mutable container that the function then fills) is one value shared by all calls.
+    -> (defaults inspected, [(parameter, default node, why)])"""
+    a = fnode.args
+    pairs = list(zip((a.posonlyargs + a.args)[len(a.posonlyargs + a.args) - len(a.defaults):], a.defaults)) + [(q, d) for q, d in zip(a.kwonlyargs, a.kw_defaults) if d is not None]
+    hits = []
+    for q, d in pairs:
+        for c in ast.walk(d):
+            if isinstance(c, ast.Lambda):
+                break
+            if isinstance(c, ast.Call) and norm(c.func) in FRESH_VALUE_CALLS:
+                hits.append((q.arg, d, f"`{norm(c)}` is called once, at definition time"))
+                break
+    return len(pairs), hits
